@@ -452,9 +452,24 @@ pub fn run_history(h: &[Op17]) -> Result<Vec<u8>, Fail> {
             }
         }
     }
-    // observed state: registration order as the table reports it over a full world is not observable
-    // without disturbing; use the model's view, which every step above validated
-    let mut key = m.reg.clone();
+    // observed state: what the table yields over a probe world in which every good type is present
+    // (this reads the registration tables themselves, so merged states really have the same futures)
+    let mut probe = World::empty();
+    for i in 0..4u8 {
+        insert(&mut probe, i);
+    }
+    let observed: Vec<u8> = match catch_unwind(AssertUnwindSafe(|| t.iter(&probe).map(|o| o.tag()).collect::<Vec<u8>>())) {
+        Ok(v) => v,
+        Err(_) => vec![250],
+    };
+    let expect: Vec<u8> = m.reg.iter().copied().filter(|i| *i != 5).collect();
+    if observed != expect {
+        let sig = if observed.len() != expect.len() { "iteration-wrong-set" } else { "iteration-wrong-order" };
+        return Err((sig.into(), format!("over a world holding every type the table yields {:?}, first-registration order is {:?}", observed, expect), h.len()));
+    }
+    let mut key = observed;
+    key.push(98);
+    key.extend(m.reg.iter().copied().filter(|i| *i == 5));
     key.push(99);
     for i in 0..NT {
         key.push(m.present[i] as u8);
